@@ -450,6 +450,8 @@ def judge(case, obs, ans, base_ans, st, shrink_left):
         st.count('driver_unavailable')
     else:
         lean = ans.get('monitor') or {}
+        for k, v in (ans.get('hyp') or {}).items():
+            st.count('hyp:%s=%s' % (k, v))
     failed = failed_monitors(case, obs, ans)
     if failed:
         first = failed[0]
